@@ -669,7 +669,7 @@ func TestC08(t *testing.T) {
 		case 9:
 			// generated module sets with injected conflicts in random layouts (tabs, form feeds, comments, CRLF):
 			// the error paths of the merge locate declarations in the raw text
-			ms := gen.Modules(rt, gen.ModOpts{MaxConflicts: 3, MaxFiles: 4, Layout: true, Decoys: true, MultiDup: true})
+			ms := gen.Modules(rt, gen.ModOpts{MaxConflicts: 3, MaxFiles: 4, Layout: true, Decoys: true, MultiDup: true, Scale: true})
 			for _, f := range ms.Files {
 				in.More = append(in.More, f.Text)
 			}
